@@ -172,14 +172,14 @@ Section Tree.
   Qed.
 
   Lemma den_prim var x : enc_shape (v_format var) x ->
-    (v_nillable var = false \/ exists p, x = VP p) ->
+    (v_nillable var = false \/ (exists p, x = VP p) \/ py_truthy x = true) ->
     den (g_prim c u var x) = [e_prim c u var x]
     /\ attrs_present (item_of c (g_prim c u var x)) = true.
   Proof.
     intros H Hnl.
     assert (Hcase : nil_attr_g var x = []
                     \/ (nil_attr_g var x = [(XSI_NIL, WP (PStr EventGen.TRUE_STR))] /\ exists p, x = VP p)).
-    { unfold nil_attr_g. destruct Hnl as [Hn|Hp]; [left; rewrite Hn; reflexivity|].
+    { unfold nil_attr_g. destruct Hnl as [Hn|[Hp|Ht]]; [left; rewrite Hn; reflexivity| |left; rewrite Ht, andb_false_r; reflexivity].
       destruct (v_nillable var && negb (py_truthy x)); [right; split; [reflexivity|exact Hp]|left; reflexivity]. }
     assert (Ene : nil_attr_e var x = []) by (destruct H; reflexivity).
     unfold den, g_prim, e_prim. rewrite Ene. cbn [item_of map].
@@ -446,7 +446,7 @@ Section Tree.
              /\ forallb (fun k => attrs_present (item_of c k)) (g_items c u (gobj n) var x) = true).
         { intros [E1 E2]. unfold g_field, e_field. destruct x eqn:Ex; [congruence| | | | | |];
             rewrite <- Ex in *; apply (den_wrap var _ _ E1 E2). }
-        assert (Hpr : forall y, enc_shape (v_format var) y -> (v_nillable var = false \/ exists p, y = VP p) ->
+        assert (Hpr : forall y, enc_shape (v_format var) y -> (v_nillable var = false \/ (exists p, y = VP p) \/ py_truthy y = true) ->
                   flat_map den [g_prim c u var y] = [e_prim c u var y]
                   /\ forallb (fun k => attrs_present (item_of c k)) [g_prim c u var y] = true).
         { intros y Hy Hnl. cbn [flat_map forallb]. destruct (den_prim var y Hy Hnl) as [E1 E2]. rewrite E1, E2. split; reflexivity. }
@@ -514,7 +514,7 @@ Section Tree.
             2:{ rewrite El in Hfv0. unfold Fits.fits_elem in Hfv0. rewrite Hf0, Htf0 in Hfv0.
                 apply andb_true_iff in Hfv0 as [_ Hfl]. rewrite forallb_forall in Hfl. specialize (Hfl x Hil).
                 destruct (Hit x Hfl) as [_ [_ Hshx]]. destruct (Hitp x Hfl) as [p Ex]. subst x. rewrite Htf0.
-                apply (Hpr (VP p) Hshx). right. eexists; reflexivity. }
+                apply (Hpr (VP p) Hshx). right. left. eexists; reflexivity. }
             unfold pair_whole in Hw. cbn [fst snd] in Hw. rewrite <- Hw in Hfv0. rename Hfv0 into Hfv. clear Hin Hw.
             unfold Fits.fits_elem in Hfv.
             destruct (v_tokens_factory var) as [tf|] eqn:Etf.
@@ -525,10 +525,10 @@ Section Tree.
                  destruct (fits_tokens_inv c u ok pyspace var tf y t Htys (Hfl y (or_introl eq_refl))) as [ty [ly [-> _]]].
                  clear Hxn. set (l := VList ty ly :: l') in *. clearbody l.
                  induction l as [|z l IHl]; [split; reflexivity|].
-                 destruct (fits_tokens_inv c u ok pyspace var tf z t Htys (Hfl z (or_introl eq_refl))) as [tz [lz [-> [_ [Htk _]]]]].
+                 destruct (fits_tokens_inv c u ok pyspace var tf z t Htys (Hfl z (or_introl eq_refl))) as [tz [lz [-> [Hnez [Htk _]]]]].
                  cbn [map flat_map forallb]. fold (den (g_prim c u var (VList tz lz))).
                  destruct (den_prim var (VList tz lz)) as [Ed1 Ed2];
-                   [eapply es_tokens; exact Htk|left; apply (wf_elem_nonil_tokens var tf Hwe Etf)|].
+                   [eapply es_tokens; exact Htk|right; right; destruct lz; [exfalso; apply Hnez; reflexivity|reflexivity]|].
                  rewrite Ed1, Ed2.
                  destruct (IHl (fun w Hw => Hfl w (or_intror Hw))) as [E3 E4]. rewrite E3, E4. split; reflexivity.
               -- destruct x as [| |tt l| | | |] eqn:Ex; try (cbn in Hfv; discriminate Hfv).
@@ -538,7 +538,7 @@ Section Tree.
                  { cbn [forallb] in Htk. apply andb_true_iff in Htk as [Hy _].
                    destruct (token_is_leaf c u ok pyspace _ _ _ Hy) as [p [-> _]]. exact I. }
                  assert (Hsh : enc_shape (v_format var) (VList tt (y :: l'))) by (eapply es_tokens; exact Htk).
-                 destruct y; try destruct Hy; apply (Hpr _ Hsh); left; apply (wf_elem_nonil_tokens var tf Hwe Etf).
+                 destruct y; try destruct Hy; apply (Hpr _ Hsh); right; right; reflexivity.
             * destruct (v_factory var) as [fa|] eqn:Efa.
               -- destruct x as [| |tt l| | | |]; try discriminate Hfv. apply andb_true_iff in Hfv as [_ Hfl].
                  rewrite forallb_forall in Hfl. clear Hxn.
@@ -546,12 +546,12 @@ Section Tree.
                  destruct (Hit y (Hfl y (or_introl eq_refl))) as [E1 [E2 Hsh]].
                  cbn [map flat_map forallb]. rewrite E1, E2.
                  fold (den (g_prim c u var y)).
-                 destruct (den_prim var y Hsh) as [Ed1 Ed2]; [right; apply (Hitp y (Hfl y (or_introl eq_refl)))|].
+                 destruct (den_prim var y Hsh) as [Ed1 Ed2]; [right; left; apply (Hitp y (Hfl y (or_introl eq_refl)))|].
                  rewrite Ed1, Ed2.
                  destruct (IHl (fun z Hz => Hfl z (or_intror Hz))) as [E3 E4]. rewrite E3, E4. split; reflexivity.
               -- destruct x eqn:Ex; try congruence.
                  all: destruct (Hit _ Hfv) as [_ [_ Hshx]]; destruct (Hitp _ Hfv) as [p0 Ep]; try discriminate Ep.
-                 inversion Ep; subst. apply (Hpr (VP p0) Hshx). right. eexists; reflexivity.
+                 inversion Ep; subst. apply (Hpr (VP p0) Hshx). right. left. eexists; reflexivity.
         - destruct (wf_text_inv var Hwt) as [Hwtk [Hwt0 [t [Htys Hwtd]]]].
           unfold g_items, e_items. rewrite Hwtk.
           assert (Hxe : x = field_of fs var).
